@@ -15,6 +15,9 @@ import Driver.Layout
 import Driver.Fx
 import Driver.FxCache
 import Driver.FxCrash
+import Driver.Costs
+import Driver.Gains
+import Driver.Determinism
 open Driver
 
 def runLedger (c : Case) : Res :=
@@ -112,6 +115,9 @@ def dispatch (c : Case) : Res :=
   | "fx" => runFx c
   | "fxcache" => runFxCache c
   | "fxcrash" => runFxCrash c
+  | "costs" => runCosts c
+  | "gains" => runGains c
+  | "determinism" => runDeterminism c
   | f => { verdict := "BADCASE", msg := s!"unknown family {f}" }
 
 def main : IO Unit := do
